@@ -389,6 +389,11 @@ CHECKS = {
         "legs": [
             model("ChmuxData_MC_small.cfg", min_states=100000),
             model("ChmuxData_DevF1.cfg", expect_violation="C01_Prefix"),
+            # item framing of the base channel: every sensible assignment of fates (ok / fails early / fails late / abandoned before the
+            # port message) to four items of mixed shape; the two deviations are the pinned tree's defect F1 and the seeded change C04_m2
+            model("RchBase_MC.cfg", spec="RchBaseMC.tla", min_states=2000),
+            model("RchBase_DevLoseFirst.cfg", spec="RchBaseMC.tla", expect_violation="C04_Prefix"),
+            model("RchBase_DevDropStash.cfg", spec="RchBaseMC.tla", expect_violation="C04_Prefix"),
             dict(TT, kind="trace", name="typed_base", workload="typed_base", n=(250, 4000), opts={}, require={r'"mode":"Cancel': 50, r'"mode":"Poison': 50, r'"mode":"Over"': 20},
                  nontrivial=[r'"res":"(err|cancel)"', r'"r":"item"']),
             dict(TT, kind="trace", name="typed_mpsc", workload="typed_mpsc", n=(250, 4000), opts={}, require={r'"ev":"t_sending"': 500, r'"mode":"Poison': 50},
